@@ -27,6 +27,42 @@ def raw_split(text):
     return rec.blocks
 
 
+def entry_points_agree(text):
+    """The properties about the splitter are stated for "parsing": what the public entry point returns. None if
+    parse_string(text, parse_stack=[]) holds exactly the splitter's blocks (duplicates wrapped, content verbatim) and
+    parse_string(text) - the default stack - holds the same blocks at the same places with the same raw text, start
+    lines, field keys and field lines; otherwise a description of the first difference."""
+    import bibtexparser
+    from bibtexparser import model as M
+
+    def inner(b):
+        return b.ignore_error_block if isinstance(b, M.DuplicateBlockKeyBlock) else b
+
+    def sk(b, values):
+        b = inner(b)
+        out = [type(b).__name__, b.raw, b.start_line]
+        e = b.ignore_error_block if isinstance(b, M.ParsingFailedBlock) else b
+        if isinstance(e, M.Entry):
+            out += [e.entry_type, e.key, [(f.key, f.start_line) + ((f.value,) if values else ()) for f in e.fields]]
+        elif isinstance(e, M.String):
+            out += [e.key] + ([e.value] if values else [])
+        elif isinstance(e, M.Preamble) and values:
+            out += [e.value]
+        elif isinstance(e, (M.ExplicitComment, M.ImplicitComment)):
+            out += [e.comment]
+        return out
+
+    src = raw_split(text)
+    for name, kw, values in (("parse_string(text, parse_stack=[])", {"parse_stack": []}, True), ("parse_string(text)", {}, False)):
+        got = bibtexparser.parse_string(text, **kw).blocks
+        if len(got) != len(src):
+            return "%s returns %d blocks, the splitter %d" % (name, len(got), len(src))
+        for i, (a, b) in enumerate(zip(src, got)):
+            if sk(a, values) != sk(b, values):
+                return "%s: block %d is %r, the splitter's block is %r" % (name, i, sk(b, values), sk(a, values))
+    return None
+
+
 def ok(x):
     return enc([Sym("ok"), x])
 
